@@ -127,6 +127,12 @@ class Fragment:
             if hier_name is None:
                 hier_name = f"<unnamed #{i}>"
 
+            if isinstance(subfrag, Instance):
+                # An instance defines no clock domains of its own; it sees exactly those of its parent.
+                # The same `Instance` object is reused when a design is elaborated again, so the domains
+                # it was given by an earlier elaboration must not shadow the current ones.
+                subfrag.domains = OrderedDict(self.domains)
+
             for domain in self.iter_domains():
                 if domain not in subfrag.domains:
                     subfrag.add_domains(self.domains[domain])
